@@ -11,6 +11,7 @@ package main
 //                    obs  = (((sid packed) ...) status (marks ...))   marks = ((topic partition offset epoch) ...) sorted
 //  which=3  raw commit
 //                    case = ((topic ...) ((sid packed) ...))     obs = (status (marks ...))
+//  which=4  consumer-group session on the real splitConsume.Assigned / Lost / pconsumer goroutines: see session.go
 //  status 0 = every Commit returned; 2 = a Commit panicked with index out of range (run stops); 1 = other panic
 
 import (
@@ -184,7 +185,9 @@ func c10Exec(which int, cs hx.Sx) hx.Sx {
 		evs := hx.List(ctl.evs, func(e c10Event) hx.Sx { return hx.L(hx.U(uint64(e.sid)), hx.Z(e.off)) })
 		var calls []c10Event
 		for _, k := range hx.Items(it[2]) {
-			calls = append(calls, ctl.evs[int(hx.Int(k))])
+			if i := int(hx.Int(k)); i >= 0 && i < len(ctl.evs) {
+				calls = append(calls, ctl.evs[i])
+			} // else: the consumer delivered fewer events than records (the event list already differs from the model's)
 		}
 		st, steps := c10CommitAll(pl, calls)
 		return hx.L(evs, hx.I(st), hx.L(steps...))
@@ -202,6 +205,8 @@ func c10Exec(which int, cs hx.Sx) hx.Sx {
 		}
 		st, steps := c10CommitAll(pl, calls)
 		return hx.L(hx.I(st), hx.L(steps...))
+	case 4:
+		return c10ExecSession(cs)
 	}
 	panic("c10: unknown which")
 }
@@ -478,11 +483,14 @@ func c10Gen(c *hmain.Ctx) {
 		}
 		c.Do("raw-commit", 3, hx.L(hx.Ss(topics), hx.L(evs...)), true)
 	}
+
+	// 7. scale / history thresholds of consumer.go (gen37.go): big fetches, many fetches, long commit histories, sessions
+	c10GenThresholds(c)
 }
 
 func main() {
 	hmain.Run(&hmain.Prop{ID: "C10",
-		Rule: "boundary: all powers of two and their neighbours up to the ends of the Go types, all (index,partition) and (offset,epoch) pairs, and the 16 corners of the stated ranges inside/just outside; exhaustive: index<4 x partition<16 x offset<16 x epoch<4 and every one of the 65536 partition and epoch values; random tuples (70% inside the stated ranges over all bit lengths); unpacking of arbitrary bit patterns; random consume+Commit sequences (permuted completion order, repeats, omissions, duplicate topic names, epoch -1 / out-of-range components) on the real Commit + real kgo marks; raw events incl. topic index outside the list. Non-trivial = all four components positive and inside the ranges (pack), an in-range sequence with >= 3 Commit calls (commit), every unpack / raw case; distinct = distinct (sub-model, case) text.",
+		Rule: "boundary: all powers of two and their neighbours up to the ends of the Go types, all (index,partition) and (offset,epoch) pairs, and the 16 corners of the stated ranges inside/just outside; exhaustive: index<4 x partition<16 x offset<16 x epoch<4 and every one of the 65536 partition and epoch values; random tuples (70% inside the stated ranges over all bit lengths); unpacking of arbitrary bit patterns; random consume+Commit sequences (permuted completion order, repeats, omissions, duplicate topic names, epoch -1 / out-of-range components) on the real Commit + real kgo marks; raw events incl. topic index outside the list; consumer.go thresholds (gen37.go): one fetch of 255..700 records (bufferSize 256), 6..40 fetches of one partition, 150..300 Commit calls on one plugin, directed and random consumer-group sessions on the real Assigned / Lost / pconsumer goroutines (bursts of 6..12 fetches on one consumer, Lost with 0..6 buffered fetches incl. the full channel of 5, fetches for partitions without a consumer, re-assignment with redelivery). Non-trivial = all four components positive and inside the ranges (pack), an in-range sequence with >= 3 Commit calls (commit), every unpack / raw case, an in-range session that routed at least one record; distinct = distinct (sub-model, case) text.",
 		Gen: func(c *hmain.Ctx) {
 			c10Gen(c)
 			// frontier clause at pipeline level: a kafka-like input (UseSpread + DisableStreams) on the
